@@ -32,6 +32,7 @@ Ltac case_goal :=
 
 Ltac discr := match goal with H : _ = _ |- _ => discriminate H end.
 
+Global Arguments BpafModel.Message.render_message : simpl never.
 Global Arguments adj_inner : simpl never.
 Global Arguments adjacently_available_from : simpl never.
 Global Arguments loop_fuel : simpl never.
